@@ -543,6 +543,50 @@ pub fn message_with_count(r: &mut Rng, nw: bool, count: usize) -> Message {
     }
 }
 
+/// a well-formed verbose message with one argument whose name (0), unit (1) or string value (2)
+/// has `n` bytes
+pub fn message_with_long_text(r: &mut Rng, which: usize, n: usize) -> Message {
+    let long: String = std::iter::repeat('q').take(n).collect();
+    loop {
+        let mut m = message(r, &MsgOpts { storage: None, big: false, max_args: 3 });
+        let Some(eh) = m.extended_header.as_mut() else { continue };
+        let PayloadContent::Verbose(args) = &mut m.payload else { continue };
+        let a = match which {
+            0 => Argument {
+                type_info: TypeInfo { kind: TypeInfoKind::Bool, coding: StringCoding::ASCII, has_variable_info: true, has_trace_info: false },
+                name: Some(long.clone()),
+                unit: None,
+                fixed_point: None,
+                value: Value::Bool(1),
+            },
+            1 => Argument {
+                type_info: TypeInfo {
+                    kind: TypeInfoKind::Unsigned(TypeLength::BitLength16),
+                    coding: StringCoding::ASCII,
+                    has_variable_info: true,
+                    has_trace_info: false,
+                },
+                name: Some("n".to_string()),
+                unit: Some(long.clone()),
+                fixed_point: None,
+                value: Value::U16(7),
+            },
+            _ => Argument {
+                type_info: TypeInfo { kind: TypeInfoKind::StringType, coding: StringCoding::UTF8, has_variable_info: false, has_trace_info: false },
+                name: None,
+                unit: None,
+                fixed_point: None,
+                value: Value::StringVal(long.clone()),
+            },
+        };
+        args.clear();
+        args.push(a);
+        eh.argument_count = 1;
+        m.header.payload_length = payload_len(&m.payload) as u16;
+        return m;
+    }
+}
+
 pub fn filter(r: &mut Rng, ids: &[String]) -> DltFilterConfig {
     let id_vec = |r: &mut Rng| -> Vec<String> {
         let n = r.below(5) as usize;
